@@ -121,9 +121,13 @@ func childEnv(role, run, hooks string) []string {
 
 // spawn runs one child to completion (or SIGKILLs it after killAfter / at the deadline).
 func spawn(base, role, runFile, hooks string, wrap []string, killAfter time.Duration, deadline time.Duration) (state string) {
-	self, err := os.Executable()
-	if err != nil {
-		self = os.Args[0]
+	// the worker's own image, by way of /proc: still executable when the file in bin/ has
+	// been replaced or unlinked by a concurrent build
+	self := fmt.Sprintf("/proc/%d/exe", os.Getpid())
+	if _, err := os.Stat(self); err != nil {
+		if self, err = os.Executable(); err != nil {
+			self = os.Args[0]
+		}
 	}
 	args := append(append([]string{}, wrap...), self, "--out", filepath.Join(base, "out-"+role), "C10")
 	cmd := exec.Command(args[0], args[1:]...)
